@@ -19,3 +19,12 @@ void utapv_globals(std::string& out)
     out += " cur_buf=" + std::string((yy_buffer_stack != nullptr && yy_buffer_stack[yy_buffer_stack_top] != nullptr) ? "1" : "0");
 }
 int utapv_lexer_start() { return yy_start; }
+// text of the buffer the lexer is scanning right now (identifies which text block a parse belongs to)
+const char* utapv_scan_text()
+{
+    if (yy_buffer_stack == nullptr || yy_buffer_stack[yy_buffer_stack_top] == nullptr)
+        return nullptr;
+    return yy_buffer_stack[yy_buffer_stack_top]->yy_ch_buf;
+}
+// spelling of the token the lexer returned last (bison shifts it before it reads another one)
+const char* utapv_last_token_text() { return utap_text; }
